@@ -88,7 +88,7 @@ def run(ctx):
                             "Non-trivial = the annotation is non-empty; distinct by (structure, perturbation, model).")
     n_inter = 0
     corr_expr, corr_exp, corr_case = [], [], []
-    for name, kind, s3 in annot.structures(ctx, kinds=("corpus", "moved", "jitter", "reversed", "thin", "thin-base", "synthetic-pair"), big=True):
+    for name, kind, s3 in annot.structures(ctx, kinds=("corpus", "moved", "jitter", "reversed", "thin", "thin-base", "synthetic-pair", "icode-runs"), big=True):
         try:
             pairs, bphs, brs, sts, o1, o2, raw = annot.annotate(s3)
         except Exception as e:  # noqa: BLE001
